@@ -126,6 +126,8 @@ func runC16(c *vf.Case) {
 	overlaps, syncBlocks := 0, 0
 	secondIssued, secondCalls := false, 0
 	var secondErr error
+	thirdIssued, thirdCalls := false, 0
+	var thirdErr error
 	steps := r.Range(1, 40)
 	for step := 0; step < steps && !c.Failed() && !closed; step++ {
 		async := r.Bool()
@@ -196,10 +198,38 @@ func runC16(c *vf.Case) {
 							closed = true
 						}
 						secondIssued = true
+						if !closed && r.Bool() {
+							// the held write completes, the flush goes on with the queued frame (held again), and a THIRD
+							// write-type call arrives during that second transport write
+							t.ReleaseOneWrite()
+							t.Pump()
+							if t.HeldWrites() > 1 {
+								c.Failf("more-than-one-write-in-flight", "%s: %d asynchronous writes are on the transport at the same time", what, t.HeldWrites())
+								return false
+							}
+							if s.State() == websocket.StateActive {
+								n := c16Size(r, max)
+								payload := r.Bytes(n)
+								w3 := fmt.Sprintf("(during the second transport write of the chain) AsyncWrite %d bytes", n)
+								c.Logf("  %s", w3)
+								expect = append(expect, c16Expect{wsref.OpBinary, true, payload, w3})
+								s.AsyncWrite(payload, websocket.TypeBinary, func(e error) { thirdCalls++; thirdErr = e })
+								thirdIssued = true
+								overlaps++
+							}
+						}
 					}
 					t.ReleaseWrites()
 				}
 				t.Pump()
+				if thirdIssued {
+					thirdIssued = false
+					if thirdCalls != 1 || thirdErr != nil {
+						c.Failf("overlapping-write-callback", "%s, then a second and a third write-type call across two transport writes: third callback invoked %d times, err=%v", what, thirdCalls, thirdErr)
+						return false
+					}
+					thirdCalls = 0
+				}
 				if secondIssued {
 					secondIssued = false
 					if secondCalls != 1 || secondErr != nil {
